@@ -16943,7 +16943,8 @@ func (msg *BGPHeader) DecodeFromBytes(data []byte, options ...*MarshallingOption
 
 	msg.Len = binary.BigEndian.Uint16(data[16:18])
 	if int(msg.Len) < BGP_HEADER_LENGTH {
-		return NewMessageError(BGP_ERROR_MESSAGE_HEADER_ERROR, BGP_ERROR_SUB_BAD_MESSAGE_LENGTH, nil, "unknown message type")
+		// RFC 4271 6.1: Data MUST contain the erroneous Length field
+		return NewMessageError(BGP_ERROR_MESSAGE_HEADER_ERROR, BGP_ERROR_SUB_BAD_MESSAGE_LENGTH, append([]byte(nil), data[16:18]...), "bad message length")
 	}
 
 	msg.Type = data[18]
@@ -16973,6 +16974,10 @@ func parseBody(h *BGPHeader, data []byte, options ...*MarshallingOption) (*BGPMe
 
 	switch msg.Header.Type {
 	case BGP_MSG_OPEN:
+		if h.Len < BGP_HEADER_LENGTH+10 {
+			// RFC 4271 6.1: below the minimum OPEN length, Data = the Length field
+			return nil, NewMessageError(BGP_ERROR_MESSAGE_HEADER_ERROR, BGP_ERROR_SUB_BAD_MESSAGE_LENGTH, []byte{byte(h.Len >> 8), byte(h.Len)}, "OPEN shorter than 29 octets")
+		}
 		msg.Body = &BGPOpen{}
 	case BGP_MSG_UPDATE:
 		msg.Body = &BGPUpdate{}
@@ -16983,7 +16988,8 @@ func parseBody(h *BGPHeader, data []byte, options ...*MarshallingOption) (*BGPMe
 	case BGP_MSG_ROUTE_REFRESH:
 		msg.Body = &BGPRouteRefresh{}
 	default:
-		return nil, NewMessageError(BGP_ERROR_MESSAGE_HEADER_ERROR, BGP_ERROR_SUB_BAD_MESSAGE_TYPE, nil, "unknown message type")
+		// RFC 4271 6.1: Data MUST contain the erroneous Type field
+		return nil, NewMessageError(BGP_ERROR_MESSAGE_HEADER_ERROR, BGP_ERROR_SUB_BAD_MESSAGE_TYPE, []byte{h.Type}, "unknown message type")
 	}
 	err := msg.Body.DecodeFromBytes(data, options...)
 	return msg, err
